@@ -137,12 +137,19 @@ fn check_country(r: &mut Report, blocks: &[Block], h: u32, reg: &str, full: bool
 
 pub fn run(a: &Args, r: &mut Report) {
     r.exhaustive = true;
-    r.rule = "exhaustive: tail() on every address 0..2^24 (shard 0, with a registration->address map for injectivity) the same answers must come back in descending and in scattered lookup order; plus out-of-range 32-bit values (edges of 2^24, 2^31 and 2^32, a prime-stride sweep of the whole 32-bit space, every other top byte over addresses that have a registration, uniformly random values); every returned registration is judged against an Annex 7 mark table and against the registration pattern of the most specific address block in data/patterns.json; aircraft_information() on every address with a registration (thorough) or 1/8 of them (quick); on a stride sample of the registered addresses aircraft_information(address, None) is asked, then the same address with an explicit registration of another state, then None again (other spelling of the address): the first answer must come back. distinct_nontrivial = number of distinct addresses that yield a registration".into();
+    r.rule = "exhaustive: tail() on every address 0..2^24 (shard 0, with a registration->address map for injectivity) the same answers must come back in descending and in scattered lookup order; plus out-of-range 32-bit values (through tail() and, one in 16, as hex strings through aircraft_information(); edges of 2^24, 2^31 and 2^32, a prime-stride sweep of the whole 32-bit space, every other top byte over addresses that have a registration, uniformly random values); every returned registration is judged against an Annex 7 mark table and against the registration pattern of the most specific address block in data/patterns.json; aircraft_information() on every address with a registration (thorough) or 1/8 of them (quick); on a stride sample of the registered addresses aircraft_information(address, None) is asked, then the same address with an explicit registration of another state, then None again (other spelling of the address): the first answer must come back. distinct_nontrivial = number of distinct addresses that yield a registration".into();
     r.assumptions.push("data/patterns.json start/end/country/pattern entries are the address-block table of the property; the nationality marks of the 21 mapped states are taken from ICAO Annex 7".into());
     let blocks = load_blocks();
     if let Some(p) = &a.replay {
         let v: serde_json::Value = serde_json::from_str(&std::fs::read_to_string(p).unwrap()).unwrap();
         let h = v["replay"]["hexid"].as_u64().unwrap() as u32;
+        if let Some(hs) = v["replay"]["hexstring"].as_str() {
+            r.evaluations += 1;
+            if let Err((loc, msg)) = guarded(|| aircraft_information(hs, None)) {
+                r.violation(&format!("C14:panic:aircraft_information:{}", short_loc(&loc)), format!("aircraft_information({hs:?}) panicked: {}", msg_class(&msg)), v["replay"].clone());
+            }
+            return;
+        }
         if let Some(explicit) = v["replay"]["explicit"].as_str() {
             let hs = format!("{h:06x}");
             let get = |reg: Option<&str>| guarded(|| aircraft_information(&hs, reg)).ok().and_then(|x| x.ok()).map(|i| (i.registration.clone(), i.country.clone()));
@@ -317,6 +324,20 @@ pub fn run(a: &Args, r: &mut Report) {
                 continue;
             }
             r.evaluations += 1;
+            // the full lookup takes the address as a hex string: out-of-range values reach it too (one probe in 16, in the
+            // spellings a feed may use)
+            if i % 16 == 0 {
+                let hs = match (i / 16) % 3 {
+                    0 => format!("{h:x}"),
+                    1 => format!("{h:08X}"),
+                    _ => format!("{h:08x}"),
+                };
+                if let Err((loc, msg)) = guarded(|| aircraft_information(&hs, None)) {
+                    r.violation(&format!("C14:panic:aircraft_information:{}", short_loc(&loc)), format!("aircraft_information({hs:?}) panicked: {}", msg_class(&msg)), json!({"hexid": h, "hexstring": hs}));
+                } else {
+                    r.class("out-of-range:aircraft_information-returned");
+                }
+            }
             match guarded(|| tail(h)) {
                 Err((loc, msg)) => r.violation(&format!("C14:panic:tail:{}", short_loc(&loc)), format!("tail({h:#x}) panicked: {}", msg_class(&msg)), json!({"hexid": h})),
                 Ok(Some(reg)) => {
